@@ -32,11 +32,16 @@ const upperHex = "0123456789ABCDEF"
 // e.g. an encoded slash (%2F) into a path separator, only the not allowed octets are percent-encoded.
 // All escape sequences present in the received path are preserved as is.
 func escapedPath(uri *url.URL) string {
-	rawPath := uri.RawPath
-	if len(rawPath) == 0 {
+	if len(uri.RawPath) == 0 {
 		return uri.EscapedPath()
 	}
 
+	return ReceivedPath(uri.RawPath)
+}
+
+// ReceivedPath returns the given path as received, with those octets percent-encoded, which may not be
+// part of a path. All escapes present in the path are kept as they are.
+func ReceivedPath(rawPath string) string {
 	var result strings.Builder
 
 	for idx := range len(rawPath) {
